@@ -185,9 +185,10 @@ def matchesListItem (line : Bytes) (strict : Bool) : M6 × ListTyp :=
   let r := parseListItem line
   if r.2 != .notList && (!strict || r.1.r1 < 4) then r else (r.1, .notList)
 
-/-- parser.calcListOffset (list.go:91-102) as a function of `match[4]`; `source[match[4]:]` panics when
-    `match[4] > len(source)` -/
-def calcListOffset (source : Bytes) (m4 : Int) : Res Nat :=
+/-- parser.calcListOffset (list.go:91-104) as a function of `match[4]` and of `lineOffset`, the column at which
+    `source` starts (since 3fb40b2 tab stops are counted from the start of the line: the current column handed
+    to IndentWidth is `lineOffset + match[4]`); `source[match[4]:]` panics when `match[4] > len(source)` -/
+def calcListOffset (source : Bytes) (m4 : Int) (lineOffset : Nat) : Res Nat :=
   if m4 < 0 then .ok 1
   else
     let k := m4.toNat
@@ -196,7 +197,7 @@ def calcListOffset (source : Bytes) (m4 : Int) : Res Nat :=
       let tail := source.drop k
       if isBlank tail then .ok 1
       else
-        let w := (indentWidth tail k).1
+        let w := (indentWidth tail (lineOffset + k)).1
         .ok (if w > 4 then 1 else w)
 
 /-- parser.lastOffset (list.go:104-110) on the list of the items' offsets -/
@@ -230,18 +231,19 @@ structure ItemOpen where
   child : Option (Int × Int)      -- `AdvanceAndSetPadding(child, padding)` when the item has content on this line
   deriving DecidableEq, Repr
 
-/-- listItemParser.Open (list_item.go:24-51) below a list whose `lastOffset` is `lastOff`; a panic of
-    calcListOffset is propagated -/
-def listItemOpen (line : Bytes) (lastOff : Nat) : Res (Option ItemOpen) :=
+/-- listItemParser.Open (list_item.go:24-52) below a list whose `lastOffset` is `lastOff`; `lineOffset` =
+    `reader.LineOffset()` (since 3fb40b2 it is added to the current column of calcListOffset and IndentPosition);
+    a panic of calcListOffset is propagated -/
+def listItemOpen (line : Bytes) (lastOff : Nat) (lineOffset : Nat) : Res (Option ItemOpen) :=
   let (m, typ) := matchesListItem line false
   if typ == .notList then .ok none
   else if m.r1 - lastOff > 3 then .ok none
   else do
-    let itemOffset ← calcListOffset line m.r4
+    let itemOffset ← calcListOffset line m.r4 lineOffset
     if m.r4 < 0 || isBlank ((line.drop m.r4.toNat).take (m.r5.toNat - m.r4.toNat)) then
       pure (some { offset := m.r3 + itemOffset, child := none })
     else
-      let (pos, padding) := indentPosition (line.drop m.r4.toNat) m.r4.toNat itemOffset
+      let (pos, padding) := indentPosition (line.drop m.r4.toNat) (lineOffset + m.r4.toNat) itemOffset
       pure (some { offset := m.r3 + itemOffset, child := some (m.r3 + pos, padding) })
 
 /-! ## ATX heading, non-attribute path (parser/atx_heading.go:85-165) -/
